@@ -19,6 +19,7 @@ RULE = (
     "message per (child,type) of that node only; nothing is written twice. Parked state is observed through writes only. Non-trivial = a key "
     "overwritten before the wake, a wake while another node has parked commands, or re-parking after a flush; distinct = distinct case JSON."
     ' Round 6: non-set application sends (req for the same child/type, internal commands), read errors, clock ticks.'
+    ' Round 7: all value types 0-56/99/255 enumerated; `reuse` sends (one Message object per key, edited before each send).'
 )
 ASSUMPTIONS = [
     "only set commands are sent (other commands: C12); value requests from nodes are part of the traffic (their reply is a set line too)",
